@@ -596,9 +596,15 @@ func AccessPath(v ssa.Value) Access {
 		case *ssa.UnOp:
 			if x.Op == token.MUL {
 				// a load that Resolve could not look through: dereferencing
-				// selects no field, the path continues with the address
-				v = x.X
-				continue
+				// selects no field; the path continues with the address when
+				// that is itself part of a field path or a plain pointer
+				// variable, and ends at the loaded value otherwise (an
+				// element of a slice or map, a call result)
+				switch x.X.(type) {
+				case *ssa.FieldAddr, *ssa.UnOp, *ssa.Parameter, *ssa.FreeVar, *ssa.Alloc, *ssa.Global:
+					v = x.X
+					continue
+				}
 			}
 		}
 		break
